@@ -60,6 +60,15 @@ def check_C18(ctx):
         "Registry.v is a faithful transcription of the KMIP 1.0-1.4 registry (bootstrapped from the pinned consts.go, reviewed; see DESIGN.md)",
         "translator transcribes constant and tagMap declarations faithfully (cross-checked against the compiler's values and the real encoder by the `tables` suite on this run)",
     ]
+    # a structure's own Tag annotation resolves to the tag of that name also for user-defined types that embed other
+    # annotated structures, and for types first used under another holder's tag (impl-only oracle of the history suite)
+    if facts.get("harness_ok"):
+        rc, hrep, out, err = run_harness(["history", "-seed", str(ctx.seed), "-n", "6"])
+        if hrep is not None:
+            ctx.cov["struct_tag_annotation_probes"] = hrep.get("distribution", {}).get("user-type:embedded", 0)
+            for v in hrep["violations"][:4]:
+                if v.get("kind") == "user-type-tag":
+                    ctx.violation("struct-tag", v)
     if rep and rep["disagreements"]:
         # the translator and the compiled package disagree: the theorems speak about something else than the code
         d = [x for x in rep["disagreements"] if x["kind"] in ("constant", "tagMap")]
@@ -304,7 +313,7 @@ def check_C13(ctx):
             ctx.cov["evaluations"] += hrep["evaluations"]
             ctx.cov["encoder_sessions_and_user_types"] = {k: v for k, v in hrep.get("distribution", {}).items()}
             for v in hrep["violations"][:5]:
-                if v.get("kind") in ("encoder-session", "user-type"):
+                if v.get("kind") in ("encoder-session", "user-type", "user-type-tag"):
                     ctx.violation(v["kind"], v)
     if broken and not ctx.violations:
         ctx.violation("theorem", broken, found_input=False)
